@@ -1,6 +1,7 @@
 (* Driver for the extracted C14 model.  One case per line, blank-separated tokens:
      base  <base-name> <tag=schema,...|-> // <reachable schema ...>      (use * for "all reachable")
      union <tag=schema,...|-> // <member ...>
+     synth <member=const|member=!|member=?> ...                         (implicit mapping from const tags)
    prints  NONE  or  A <schema>:<tag>,<tag> ... // F <fallback|-> *)
 open C14_model
 let explode (s : string) : char list = List.init (String.length s) (String.get s)
@@ -27,6 +28,18 @@ let () =
         | "union" :: m :: "//" :: members ->
           (match upgrade (List.map explode members) (parse_mapping m) with
            | Some d -> print_endline (show d)
+           | None -> print_endline "NONE")
+        | "synth" :: ms ->
+          (* member=value | member=! (no string const) | member=? (schema missing) *)
+          let parsed = List.map (fun kv -> match String.index_opt kv '=' with
+            | Some i -> (String.sub kv 0 i, String.sub kv (i + 1) (String.length kv - i - 1))
+            | None -> failwith "bad member") ms in
+          let consts name = (match List.assoc_opt (implode name) parsed with
+            | None | Some "?" -> None
+            | Some "!" -> Some None
+            | Some v -> Some (Some (explode v))) in
+          (match synth (List.map (fun (m, _) -> explode m) parsed) consts with
+           | Some m -> print_endline ("M " ^ String.concat "," (List.map (fun (t, s) -> implode t ^ "=" ^ implode s) m))
            | None -> print_endline "NONE")
         | _ -> print_endline "ERR"
       with Failure e -> print_endline ("ERR " ^ e))
